@@ -335,7 +335,7 @@ func (w *xw) assertion(a *LAssertion, st nsStyle, standalone bool) {
 			if a.HasSCD {
 				w.depth++
 				w.nl()
-				var sa []attr
+				var sa, scdNS []attr
 				sa = optAttr(sa, "NotOnOrAfter", a.SCNotOnOrAfter)
 				sa = optAttr(sa, "Recipient", a.Recipient)
 				if a.SCInResponseTo != "" {
@@ -343,8 +343,11 @@ func (w *xw) assertion(a *LAssertion, st nsStyle, standalone bool) {
 				}
 				if w.l.Extras {
 					sa = append(sa, attr{"Address", "192.0.2.7"})
+					// anyAttribute ##other: a vendor attribute spelled like a SAML one must not stand in for it
+					sa = append([]attr{{"x500:Recipient", "https://vendor.example/recipient-hint"}, {"x500:InResponseTo", "_vendor_irt"}}, sa...)
+					scdNS = []attr{{"xmlns:x500", "urn:oasis:names:tc:SAML:2.0:profiles:attribute:X500"}}
 				}
-				w.open(A+"SubjectConfirmationData", nil, sa, true)
+				w.open(A+"SubjectConfirmationData", scdNS, sa, true)
 				w.depth--
 				w.nl()
 				w.close(A + "SubjectConfirmation")
@@ -451,6 +454,9 @@ func (w *xw) assertion(a *LAssertion, st nsStyle, standalone bool) {
 				if w.l.Extras {
 					ans = []attr{{"xmlns:x500", "urn:oasis:names:tc:SAML:2.0:profiles:attribute:X500"}}
 					aa = append(aa, attr{"x500:Encoding", "LDAP"})
+					if w.rnd(2) == 0 {
+						aa = append([]attr{{"x500:Name", "2.5.4.3"}, {"x500:FriendlyName", "vendorFriendly"}}, aa...)
+					}
 				}
 				w.open(A+"Attribute", ans, aa, len(at.Values) == 0)
 				if len(at.Values) > 0 {
